@@ -43,6 +43,9 @@ Obs_Names(o) == o.err \/ \A n \in SeqRange(o.names) : Obs_CleanName(n.comps)
 Obs_Over(o)       == o.op = "load" /\ MustReject(o.sizes, o.flim, o.tlim)
 Obs_SizeReject(o) == Obs_Over(o) => o.err
 Obs_SizeRead(o)   == Obs_Over(o) => o.consumed <= o.bound
+\* an entry DECLARING more than the per-file limit is rejected from its header: its body is not read
+\* (hdrBound = stream offset of the entry's data + one decompressor window of read-ahead)
+Obs_SizeHeader(o) == (o.op = "load" /\ o.firstOver > 0 /\ o.sizes[o.firstOver] > o.flim) => o.consumed <= o.hdrBound
 
 \* conformance with the model's own outcome: error class; files (and extracted directories) written
 ObsFiles(o)  == {c.path : c \in {x \in SeqRange(o.changes) : x.t # "dir" \/ (o.op = "extract" /\ x.kind = "created")}}
@@ -56,6 +59,7 @@ Judge16 ==
   /\ Say(Obs_Names(o), <<"OBSVIOL", i, "C16_CleanNames">>)
   /\ Say(Obs_SizeReject(o), <<"OBSVIOL", i, "C16_SizeReject">>)
   /\ Say(Obs_SizeRead(o), <<"OBSVIOL", i, "C16_SizeRead">>)
+  /\ Say(Obs_SizeHeader(o), <<"OBSVIOL", i, "C16_SizeHeader">>)
   /\ Say(~(o.err /\ EscapedChanges(o) # {}), <<"OBSNOTE", i, "escape-with-error">>)
   /\ Say(~o.panic, <<"OBSNOTE", i, "panic">>)
   /\ Say(Obs_ConfErr(o), <<"OBSDIV", i, "error-class">>)
